@@ -19,7 +19,7 @@ def explore(ctx, prop: str, with_liveness: bool):
     t_budget = ctx.pick(120, 2400)
     histories_for_conformance: list = []
     for (cap, depth) in space(ctx):
-        cfg = {"capacity": cap, "sizes": SIZES}
+        cfg = {"capacity": cap, "sizes": SIZES, "age": with_liveness}  # C09 also lets readers grow older than the staleness window
 
         def expand(hist, cfg=cfg):
             w = shmworld.build(cfg, hist)
